@@ -28,6 +28,10 @@ func draw(t *rapid.T) *pbt.Case {
 	}
 	str := gen.Regular()
 	g := gen.Default(str).Boost(2, "uwrapcause", "uwrapsafefmt", "pkgmsg", "pkgstack", "pkgwrap", "uwrapnofmt", "uopt", "risleaf", "sentinel", "ospath", "netop", "dnswrap")
+	// A multi-error type that also has a Cause() method (only used here:
+	// the library sees it as single-cause wrapper and multi-cause error at once).
+	g.Multi = append(append([]string{}, g.Multi...), "umulticauser", "umulticauser")
+	g.WMulti = 2
 	c := &pbt.Case{}
 	c.Spec = g.Draw(t, rapid.IntRange(1, maxB).Draw(t, "budget"))
 	c.Aux = []*gen.Spec{g.Draw(t, rapid.IntRange(1, 3).Draw(t, "budget2"))}
@@ -52,6 +56,33 @@ func tryAs(f func(error, interface{}) bool, e error, target interface{}) (res bo
 	return f(e, target), ""
 }
 
+// everyNode explores Unwrap() error, Cause() and Unwrap() []error at
+// every node (a node may offer several of them).
+func everyNode(e error) []error {
+	var out []error
+	seen := 0
+	var rec func(x error)
+	rec = func(x error) {
+		if x == nil || seen > 500 {
+			return
+		}
+		seen++
+		out = append(out, x)
+		if u, ok := x.(interface{ Unwrap() error }); ok {
+			rec(u.Unwrap())
+		} else if c, ok := x.(interface{ Cause() error }); ok {
+			rec(c.Cause())
+		}
+		if m, ok := x.(interface{ Unwrap() []error }); ok {
+			for _, b := range m.Unwrap() {
+				rec(b)
+			}
+		}
+	}
+	rec(e)
+	return out
+}
+
 type causer interface{ Cause() error }
 type unwrapper interface{ Unwrap() error }
 
@@ -59,8 +90,8 @@ func check(c *pbt.Case, r *pbt.R) {
 	e := gen.Build(c.Spec)
 	o := gen.Build(c.Aux[0])
 	nodes := obs.AllNodes(e)
-	refs := append([]error{}, nodes...)
-	refs = append(refs, obs.AllNodes(o)...)
+	refs := append([]error{}, everyNode(e)...)
+	refs = append(refs, everyNode(o)...)
 	for _, n := range gen.SentinelNames {
 		refs = append(refs, gen.Sentinels[n])
 	}
@@ -137,7 +168,10 @@ func check(c *pbt.Case, r *pbt.R) {
 				r.Failf("Unwrap is non-nil where the standard errors.Unwrap is nil", "on %T\ne=%s", n, c.Spec)
 			}
 		}
-		if _, ok := n.(interface{ Unwrap() []error }); ok && (lu != nil || errors.UnwrapOnce(n) != nil) {
+		_, hasCause := n.(causer)
+		// (a multi-error type that also has a Cause() method is followed
+		// through Cause(), the extension the library documents)
+		if _, ok := n.(interface{ Unwrap() []error }); ok && !hasCause && (lu != nil || errors.UnwrapOnce(n) != nil) {
 			r.Failf("Unwrap is non-nil on a multi-cause error", "on %T\ne=%s", n, c.Spec)
 		}
 	}
